@@ -79,7 +79,7 @@ def answers_match(obs, exp):
     return obs == exp
 
 
-ITER_KINDS = ("list", "set", "tuple", "iter")
+ITER_KINDS = ("list", "set", "tuple", "iter", "numpy")
 
 
 def as_iterable(ids, kind):
@@ -93,6 +93,12 @@ def as_iterable(ids, kind):
         return iter(list(ids))
     if kind == "gen":
         return (x for x in list(ids))
+    if kind == "numpy":
+        import numpy as np
+        ids = list(ids)
+        if all(isinstance(x, int) and abs(x) < 2**62 for x in ids):
+            return np.array(ids, dtype=np.int64)      # an iterable of numpy integers equal to the identifiers
+        return ids
     raise ValueError(kind)
 
 
